@@ -302,7 +302,11 @@ class NonBondEngine():
                 if gndx_pair not in exclusions:
                     other_atype = self.atypes[gndx_pair]
                     params = self.interaction_matrix[frozenset([current_atype, other_atype])]
-                    force += POTENTIAL_FUNC[potential](dist, point, self.positions[gndx_pair], params)
+                    # the distance is a minimum image distance, so the force has to point along
+                    # the vector to the closest periodic image of the other particle as well
+                    ref = self.positions[gndx_pair]
+                    ref = ref + self.boxsize * np.round((point - ref) / self.boxsize)
+                    force += POTENTIAL_FUNC[potential](dist, point, ref, params)
         return force
 
     def compute_bending_probability(self, lp, point, mol_idx, node_b, node_c):
